@@ -1457,4 +1457,40 @@ Section Facts.
     eapply (seq_eval_covers (results s) (I_sound _ I) order [] r0); eauto. intros d v' [].
   Qed.
 
+  (* ------------------------------------------------------------------ removing results (invalidate, cleanup) *)
+  (* dropping a set of results that is closed under "depends on" - what `jug invalidate` removes (C09),
+     and what `jug cleanup` removes when the jugfile's tasks are closed under dependencies (C10) -
+     leaves a sound store: every theorem about runs from a sound store applies to the execute that follows *)
+  Theorem Sound_restrict : forall (r : tid -> option V) (keep : tid -> bool), Sound r ->
+    (forall t d, keep t = true -> r t <> None -> In d (c_deps C t) -> keep d = true) ->
+    Sound (fun t => if keep t then r t else None).
+  Proof.
+    intros r keep Hs Hk t v Hv. destruct (keep t) eqn:Ek; [|discriminate].
+    destruct (Hs _ _ Hv) as [Hd Hsem].
+    assert (Hr : r t <> None) by congruence.
+    split.
+    - intros d Hin. rewrite (Hk t d Ek Hr Hin). apply Hd; auto.
+    - rewrite <- Hsem. apply sem_frame. intros d Hin. now rewrite (Hk t d Ek Hr Hin).
+  Qed.
+
+  (* the execute after an invalidation calls exactly the functions of the removed tasks (those that get
+     stored again), each once, and none of the kept ones *)
+  Theorem execute_after_removal : forall (r : tid -> option V) (keep : tid -> bool) tr (s : st V), Sound r ->
+    (forall t d, keep t = true -> r t <> None -> In d (c_deps C t) -> keep d = true) ->
+    forallb quiet tr = true -> run C (init (fun t => if keep t then r t else None)) tr = Some s ->
+    forall t, (keep t = true -> r t <> None -> execs s t = 0 /\ results s t = r t) /\
+              (keep t = false -> results s t <> None -> execs s t = 1).
+  Proof.
+    intros r keep tr s Hs Hk Q H t.
+    assert (Hs' := Sound_restrict r keep Hs Hk).
+    destruct (exactly_once _ tr s Hs' Q H t) as [_ [A B]].
+    assert (I0 := Inv_init _ Hs').
+    split.
+    - intros Ek Hr. split.
+      + apply A. rewrite Ek. exact Hr.
+      + destruct (r t) eqn:Er; [|congruence].
+        eapply results_mono_run; eauto. simpl. now rewrite Ek.
+    - intros Ek Hr. apply B; auto. now rewrite Ek.
+  Qed.
+
 End Facts.
